@@ -186,14 +186,15 @@ Proof.
   unfold chal. fold x.
   rewrite combine_map_self, map_map.
   rewrite fsum_cg.
+  rewrite (fsum_cg l (map snd _)), map_map.
   rewrite (zsum_map_cg l _ (fun ik => x * (coef enc H tr ik * snd ik) + H (nonce_input enc (snd ik) seed tr a (fst ik) m))).
-  2:{ intros [i k] _. cbn [nonce_of fst snd]. rewrite cg_mod. rewrite fmul_cg. reflexivity. }
-  rewrite zsum_map_lin.
-  rewrite (fsum_cg l (map snd _)). rewrite map_map. cbn [nonce_of snd].
-  unfold a at 2. unfold weighted_key_of. rewrite fsum_cg. fold tr.
-  rewrite (zsum_map_cg l (fun ik => fmul l (coef enc H tr ik) (snd ik)) (fun ik => coef enc H tr ik * snd ik)).
-  2:{ intros; apply fmul_cg. }
-  cg_ring.
+  2:{ intros [i k] _. cbn [nonce_of fst snd]. rewrite cg_mod, fmul_cg. reflexivity. }
+  rewrite zsum_map_lin. cbn [nonce_of snd].
+  assert (Ha : cg l a (zsum (map (fun ik => coef enc H tr ik * snd ik) sel))).
+  { unfold a, weighted_key_of. fold tr. rewrite fsum_cg. apply zsum_map_cg. intros; apply fmul_cg. }
+  set (Z1 := zsum (map (fun ik => coef enc H tr ik * snd ik) sel)) in *.
+  set (Z2 := zsum (map _ sel)).
+  rewrite Ha. cg_ring.
 Qed.
 
 Lemma verify_eq : forall r s keys signers m, 0 < l ->
@@ -265,3 +266,67 @@ Proof.
 Qed.
 
 End Sign.
+
+Section Binding.
+Variable l : Z.
+Variable enc : Z -> N.
+Variable H : list N -> Z.
+
+(* with a prime order the second challenge is one specific value *)
+Lemma binding_challenge : forall r s keys signers m keys' signers' m', prime l ->
+  aggregate_verify l enc H r s keys signers m = Ok tt ->
+  aggregate_verify l enc H r s keys' signers' m' = Ok tt ->
+  let a := weighted_key_of l enc H (sel_of keys signers) in
+  let a' := weighted_key_of l enc H (sel_of keys' signers') in
+  exists w, (a' * w) mod l = 1 mod l /\
+            chal enc H r a' m' mod l = (chal enc H r a m * a * w) mod l.
+Proof.
+  intros r s keys signers m keys' signers' m' Hp H1 H2. cbv zeta.
+  assert (Hl : 0 < l) by (destruct Hp; lia).
+  destruct (binding l enc H _ _ _ _ _ _ _ _ Hl H1 H2) as (Ha' & E).
+  set (a := weighted_key_of l enc H (sel_of keys signers)) in *.
+  set (a' := weighted_key_of l enc H (sel_of keys' signers')) in *.
+  assert (Hnz : a' mod l <> 0) by (rewrite Z.mod_small; lia).
+  destruct (inv_exists l a' Hp Hnz) as [w Hw]. exists w. split; [apply cg_iff; exact Hw|].
+  apply cg_iff.
+  replace (chal enc H r a m * a * w) with ((chal enc H r a m * a) * w) by ring.
+  rewrite <- E.
+  replace (chal enc H r a' m' * a' * w) with (chal enc H r a' m' * (a' * w)) by ring.
+  rewrite Hw. cg_ring.
+Qed.
+
+(* a signature made by AggregateSign for S, offered for another context *)
+Lemma subset_relation : forall privs keys signers seed m r s keys' signers' m', 0 < l ->
+  aggregate_sign l enc H privs keys signers seed m = Ok (r, s) ->
+  signers_ok l keys' signers' ->
+  let a := weighted_key_of l enc H (sel_of keys signers) in
+  let a' := weighted_key_of l enc H (sel_of keys' signers') in
+  (aggregate_verify l enc H r s keys' signers' m' = Ok tt <->
+   0 < a' < l /\ 0 < r < l /\ cg l (chal enc H r a m * a) (chal enc H r a' m' * a')).
+Proof.
+  intros privs keys signers seed m r s keys' signers' m' Hl Hs Hok. cbv zeta.
+  destruct (sign_sound l enc H _ _ _ _ _ _ _ Hl Hs) as (_ & Hr & Hsr & E). cbv zeta in E.
+  rewrite (verify_eq l enc H r s keys' signers' m' Hl Hok).
+  set (u := chal enc H r _ m * _) in *. set (v := chal enc H r _ m' * _) in *.
+  split.
+  - intros (Ha & Hr' & _ & E2). repeat split; try tauto.
+    assert (E3 : cg l (r + u) (r + v)) by (rewrite <- E, <- E2; reflexivity).
+    replace u with ((r + u) - r) by ring. rewrite E3. cg_ring.
+  - intros (Ha & Hr' & E2). repeat split; try tauto. rewrite E, E2. reflexivity.
+Qed.
+
+(* rogue key x.B - K_v next to K_v: the weighted key is independent of the
+   victim's key only if the two coefficients coincide *)
+Lemma rogue_key : forall i j kv kr x, cg l kr (x - kv) ->
+  let sel := [(i, kv); (j, kr)] in
+  let tr := transcript enc sel in
+  cg l (weighted_key_of l enc H sel)
+       (coef enc H tr (j, kr) * x + (coef enc H tr (i, kv) - coef enc H tr (j, kr)) * kv).
+Proof.
+  intros i j kv kr x Hk. cbv zeta. unfold weighted_key_of. rewrite fsum_cg.
+  cbn [map]. rewrite !zsum_cons, zsum_nil. cbn [snd]. rewrite !fmul_cg.
+  set (c1 := coef enc H _ (i, kv)). set (c2 := coef enc H _ (j, kr)).
+  rewrite Hk. cg_ring.
+Qed.
+
+End Binding.
